@@ -4081,8 +4081,10 @@ scobindUndo()
 
 	scoUndoStab(scoStab);
 
-	listFreeDeeply(Syme)(scoUndoSymes, symeFree);
-	listFreeDeeply(TForm)(scoUndoTForms, tfFree);
+	/* The symbol meanings and type forms of the rejected step may still be
+	 * referred to (type-form caches, condition atoms): drop them, do not free them. */
+	listFree(Syme)(scoUndoSymes);
+	listFree(TForm)(scoUndoTForms);
 
 	scoUndoState = false;
 }
